@@ -7,9 +7,9 @@ CONSTANTS
   TlsModes <- OnlyFalse
   MakeModes <- OnlyFalse
   MaxFaults = 1
-  AsBuiltD8 = TRUE
-  SigOnMake <- SigNever
-  Hoisted = FALSE
+  AsBuiltD8 = FALSE
+  SigOnMake <- SigFirst
+  Hoisted = TRUE
   GenMode = FALSE
   GenLen = 0
-INVARIANTS C09_EndsOnlyOnAllowed
+PROPERTIES C07_NoAcceptAfterSignal
